@@ -1,5 +1,4 @@
-(* C13 / C12(i), part B: frames, the coupling invariant between the response monitor and the
-   engine's two stacks, and its preservation by every control point of the `_run` loop ([dstep]). *)
+(* C13 / C12(i), part B: what resuming a frame of the plan stack can do. *)
 From Coq Require Import List String ZArith Bool Arith Lia.
 From BV Require Import Engine.RE Engine.REInst Engine.RespMon Proofs.RE_Small Proofs.RE_RespA.
 Import ListNotations.
@@ -131,10 +130,6 @@ Ltac norm_hyps :=
 Section Proofs.
 Variable P : Type.
 Variable presume : P -> input -> outcome P.
-Variable plan_of : nat -> P.
-Variable D : Type.
-Variable dev : D -> nat -> devmeth -> D * devres.
-Notation st := (st P D).
 
 (* ------------------------------------------------------------------ frames *)
 Variable pid : nat.
@@ -342,3 +337,6 @@ Proof.
 Qed.
 
 End Proofs.
+
+Arguments wfh {P}.
+Arguments startedF {P}.
